@@ -192,7 +192,7 @@ func (m *monitors) onRequest(r *run, c *call, req interface{}) {
 		}
 	}
 	m.callSnap[c] = snap
-	if m.honest[c.client] && c.copies == 1 && r.on("entry") {
+	if m.honest[c.client] && c.copies == 1 && (r.on("entry") || r.on("msg")) {
 		m.expectEntries(r, c, pp)
 	}
 	for _, p := range pp.PushPullPacks {
@@ -261,6 +261,38 @@ func (m *monitors) onResponse(r *run, c *call, res callResult, dropped bool) {
 				}
 				if !shared {
 					r.fail("serial", "C12.isolation", "blocked-by-other-key", "%s: the push-pull of %s could not get its lock although no other request touched that key", c.client, p.Key)
+				}
+				// A handler holds the lock of its datatype only while it works, and in the simulation work
+				// takes time only while the database is slow: the whole database (time jumps with every
+				// command pending), or one command it sits on. A lease can run out only behind a holder
+				// that is waiting for such a command of the same datatype (or, with the inserted
+				// scheduling points as seams, behind a holder the scheduler left standing meanwhile).
+				if r.res.Faults["server-crash"] == 0 && !r.cfg.HoldPub && req != nil {
+					reason := r.evSlow > 0 || (r.cfg.Yields && len(r.evStall) > 0)
+					if !reason {
+						marks := []string{fmt.Sprintf("%q", p.Key)}
+						if p.DUID != "" {
+							marks = append(marks, p.DUID)
+						}
+						dts, _ := r.readStore()
+						colNum := r.collNum(req.Collection)
+						for _, duid := range sortedKeys(dts) {
+							if di := dts[duid]; di.doc.Key == p.Key && di.doc.CollectionNum == colNum {
+								marks = append(marks, duid)
+							}
+						}
+						for _, st := range r.evStall {
+							for _, mk := range marks {
+								if strings.Contains(st, mk) {
+									reason = true
+								}
+							}
+						}
+					}
+					r.probe("lock-timeout-judged")
+					if !reason {
+						r.fail("serial", "C12.isolation", "lock-timeout-behind-idle-holder", "%s: the push-pull of %s could not get the lock of its datatype within the lease although no request for that datatype was waiting for the database (commands the database sat on in this step: %d, none of them of this datatype)", c.client, p.Key, len(r.evStall))
+					}
 				}
 			}
 			continue
@@ -599,6 +631,7 @@ func (m *monitors) atQuiescence(r *run) {
 	w := r.w
 	dts, _ := r.readStore()
 	m.checkLog(r, dts, false, true)
+	m.checkReader(r, dts)
 	byKey := map[string]*dtInfo{}
 	for _, duid := range sortedKeys(dts) {
 		di := dts[duid]
@@ -701,7 +734,7 @@ func (m *monitors) atQuiescence(r *run) {
 			got := append([]string{}, h.d.rops...)
 			h.d.mu.Unlock()
 			// a subscriber may have received a prefix as part of its subscribe response, which includes its own (none) — compare as sequences
-			if strings.Join(got, ",") != strings.Join(want, ",") && r.on("conv") {
+			if strings.Join(got, ",") != strings.Join(want, ",") && r.on("conv") && !h.d.noRemote {
 				// own operations re-delivered or foreign ones skipped/repeated
 				r.fail("conv", "C05.remote-once-in-log-order", "sequence-differs", "%s: remote operations reported for %s are not the foreign operations of the log, once each, in log order:\n  log order: %v\n  reported : %v", h.a.name, k, want, got)
 			}
